@@ -59,3 +59,120 @@ def no_group_structure():
         pdbio.atom_line("ATOM", 1, "CA", " ", "ALA", "A", 1, " ", 1000, 2000, 3000),
         pdbio.atom_line("ATOM", 2, "CB", " ", "ALA", "A", 1, " ", 2530, 2000, 3000),
     ]) + "\nEND\n"
+
+
+# ---------------------------------------------------------------------------------------------
+# line-level transformations (fixed columns; never through propka)
+# ---------------------------------------------------------------------------------------------
+def is_atom(ln):
+    return ln[:6] in ("ATOM  ", "HETATM")
+
+
+def body(text):
+    return [ln for ln in text.splitlines() if ln.strip() and not ln.startswith("END")]
+
+
+def join(lines):
+    return "\n".join(lines) + "\nEND\n"
+
+
+def set_resid(ln, chain=None, num=None, icode=None):
+    ln = ln.ljust(80)
+    if chain is not None:
+        ln = ln[:21] + chain + ln[22:]
+    if num is not None:
+        ln = ln[:22] + ("%4d" % num) + ln[26:]
+    if icode is not None:
+        ln = ln[:26] + icode + ln[27:]
+    return ln
+
+
+def resid(ln):
+    return (ln[21], int(ln[22:26]), ln[26])
+
+
+def shift_numbers(lines, delta, chain=None):
+    return [set_resid(ln, num=resid(ln)[1] + delta) if is_atom(ln) and (chain is None or ln[21] == chain) else ln
+            for ln in lines]
+
+
+def rename_chain(lines, old, new):
+    return [set_resid(ln, chain=new) if is_atom(ln) and ln[21] == old else ln for ln in lines]
+
+
+def relabel_residues(lines, mapping):
+    """mapping: {(chain, num, icode): (chain, num, icode)}"""
+    out = []
+    for ln in lines:
+        if is_atom(ln) and resid(ln) in mapping:
+            c, n, i = mapping[resid(ln)]
+            ln = set_resid(ln, chain=c, num=n, icode=i)
+        out.append(ln)
+    return out
+
+
+def renumber_sequential(lines, start=1):
+    """Residues in file order get numbers of their own (insertion codes removed), per chain."""
+    out = []
+    last = {}
+    cur = {}
+    for ln in lines:
+        if is_atom(ln):
+            ch = ln[21]
+            rid = resid(ln)
+            if cur.get(ch) != rid:
+                cur[ch] = rid
+                last[ch] = last.get(ch, start - 1) + 1
+            ln = set_resid(ln, num=last[ch], icode=" ")
+        out.append(ln)
+    return out
+
+
+def to_hetatm(lines, pred):
+    return [("HETATM" + ln[6:]) if is_atom(ln) and pred(ln) else ln for ln in lines]
+
+
+def drop(lines, pred):
+    return [ln for ln in lines if not (pred(ln))]
+
+
+def translate(lines, dx, dy, dz):
+    """Shift by milli-Angstrom integers."""
+    out = []
+    for ln in lines:
+        if is_atom(ln):
+            r = pdbio.parse_line(ln)
+            ln = pdbio.set_xyz(ln, r.x + dx, r.y + dy, r.z + dz)
+        out.append(ln)
+    return out
+
+
+def ion_line(resn, xyz, chain="X", num=900, serial=9000):
+    el = resn if len(resn) <= 2 else resn[:2]
+    name = resn if len(resn) <= 2 else resn[:2]
+    el2 = el[0] + el[1:].lower() if len(el) == 2 else el
+    return pdbio.atom_line("HETATM", serial, name, " ", resn, chain, num, " ", xyz[0], xyz[1], xyz[2], elem=el2)
+
+
+def centroid(lines, pred=lambda ln: True):
+    pts = [pdbio.parse_line(ln) for ln in lines if is_atom(ln) and pred(ln)]
+    n = max(1, len(pts))
+    return (sum(p.x for p in pts) // n, sum(p.y for p in pts) // n, sum(p.z for p in pts) // n)
+
+
+def atom_xyz(lines, chain, num, name, icode=" "):
+    for ln in lines:
+        if is_atom(ln) and resid(ln) == (chain, num, icode) and ln[12:16].strip() == name:
+            r = pdbio.parse_line(ln)
+            return (r.x, r.y, r.z)
+    return None
+
+
+def chain_lines(name, chain, first=0, count=None, protein_only=True):
+    bl = [b for b in residue_blocks(atom_lines(name)) if b[0] != "TER" and b[0][0] == chain
+          and (not protein_only or b[1][0].startswith("ATOM"))]
+    sel = bl[first:(first + count) if count else None]
+    return [ln for _, ls in sel for ln in ls]
+
+
+TER = "TER   "
